@@ -1501,7 +1501,7 @@ class Model:
         for cpd, stoich in cache.dyn_stoich_by_cpds.items():
             for rxn, derived in stoich.items():
                 stoich_by_cpds[cpd][rxn] = float(
-                    derived.fn(*(args[i] for i in derived.args))
+                    derived.fn(*self._coefficient_args(args, derived.args))
                 )
         return pd.DataFrame(stoich_by_cpds).T.fillna(0)
 
@@ -1529,7 +1529,9 @@ class Model:
 
         stoich = copy.deepcopy(cache.stoich_by_cpds[variable])
         for rxn, derived in cache.dyn_stoich_by_cpds.get(variable, {}).items():
-            stoich[rxn] = float(derived.fn(*(args[i] for i in derived.args)))
+            stoich[rxn] = float(
+                derived.fn(*self._coefficient_args(args, derived.args))
+            )
         return stoich
 
     def get_raw_stoichiometries_of_variable(
@@ -2303,9 +2305,20 @@ class Model:
                 dxdt[k] += n * dependent[flux]
         for k, sd in cache.dyn_stoich_by_cpds.items():
             for flux, dv in sd.items():
-                n = dv.calculate(dependent)
+                n = dv.fn(*self._coefficient_args(dependent, dv.args))
                 dxdt[k] += n * dependent[flux]
         return tuple(dxdt[i] for i in cache.var_names)
+
+    def _coefficient_args(
+        self,
+        args: Mapping[str, float] | pd.Series,
+        names: list[str],
+    ) -> list:
+        """Arguments of a computed stoichiometric coefficient.
+
+        Data sets are not part of the argument table handed out, so look them up here.
+        """
+        return [self._data[i] if i in self._data else args[i] for i in names]
 
     def _get_right_hand_side(
         self,
@@ -2321,7 +2334,7 @@ class Model:
 
         for k, sd in cache.dyn_stoich_by_cpds.items():
             for flux, dv in sd.items():
-                n = dv.fn(*(args[i] for i in dv.args))
+                n = dv.fn(*self._coefficient_args(args, dv.args))
                 dxdt[k] += n * args[flux]
         return dxdt
 
@@ -2372,7 +2385,7 @@ class Model:
         rhs_by_time = {}
         for time, variables in args.iterrows():
             rhs_by_time[time] = self._get_right_hand_side(
-                args=variables.to_dict(),
+                args=variables.to_dict() | {"time": cast(float, time)},
                 var_names=var_names,
                 cache=cache,
             )
